@@ -89,6 +89,13 @@ Theorem C27_history : forall w c declared ops,
 Proof. exact history_carries. Qed.
 Print Assumptions C27_history.
 
+(* the model's out-of-fuel value is an artefact that no operation ever produces: the fuel given by
+   run_op (number of files + 2) always suffices, whatever the import graph *)
+Theorem C27_fuel_sufficient : forall w c declared opn g o,
+  snd (run_op w c declared opn g o) <> OErr EFuel.
+Proof. exact run_op_never_out_of_fuel. Qed.
+Print Assumptions C27_fuel_sufficient.
+
 (* -- non-vacuity ---------------------------------------------------------------------------------- *)
 Definition ex_imp (l : list nat) : import := {| i_plain := Some l; i_rel := false; i_rooted := [] |}.
 (* a.m imports b.m and c.m, b.m imports c.m, c.m imports a.m (cycle + diamond) *)
